@@ -58,9 +58,31 @@ func (h *hijackWriter) Hijack() (net.Conn, *bufio.ReadWriter, error) {
 	return h.conn, h.rw, nil
 }
 
+// pausingConn models a slow link: after a short write (a frame header) the writer is descheduled for a moment,
+// as it can be on a real socket between the two writes that make up one frame.
+type pausingConn struct {
+	net.Conn
+	pause time.Duration
+}
+
+func (p *pausingConn) Write(b []byte) (int, error) {
+	n, err := p.Conn.Write(b)
+	if p.pause > 0 && len(b) <= 14 {
+		time.Sleep(p.pause)
+	}
+	return n, err
+}
+
 // Connect runs gw.Handler on the server end of a pipe and completes the websocket handshake on the client end.
-func Connect(gw *pebbles.Gateway) (*ClientConn, error) {
-	cli, srv := net.Pipe()
+func Connect(gw *pebbles.Gateway) (*ClientConn, error) { return ConnectPausing(gw, 0) }
+
+// ConnectPausing is Connect with a pause after every short write of the gateway (see pausingConn).
+func ConnectPausing(gw *pebbles.Gateway, pause time.Duration) (*ClientConn, error) {
+	cli, srvPipe := net.Pipe()
+	var srv net.Conn = srvPipe
+	if pause > 0 {
+		srv = &pausingConn{Conn: srvPipe, pause: pause}
+	}
 	req := httptest.NewRequest("GET", "http://gateway.test/graphql", nil)
 	req.Header.Set("Upgrade", "websocket")
 	req.Header.Set("Connection", "Upgrade")
@@ -102,7 +124,7 @@ func (cc *ClientConn) readLoop(r io.Reader) {
 		if err != nil {
 			if !errors.Is(err, io.EOF) && !errors.Is(err, io.ErrClosedPipe) && !errors.Is(err, io.ErrUnexpectedEOF) {
 				cc.Frames <- Frame{Err: "frame header: " + err.Error()}
-			} else if errors.Is(err, io.ErrUnexpectedEOF) {
+			} else if errors.Is(err, io.ErrUnexpectedEOF) && !cc.locallyClosed() {
 				cc.Frames <- Frame{Err: "truncated frame header"}
 			}
 			return
@@ -121,7 +143,10 @@ func (cc *ClientConn) readLoop(r io.Reader) {
 		}
 		payload := make([]byte, h.Length)
 		if _, err := io.ReadFull(r, payload); err != nil {
-			cc.Frames <- Frame{Err: "truncated frame payload"}
+			// a frame cut short by the client's own disconnect is not something the client "received"
+			if !cc.locallyClosed() {
+				cc.Frames <- Frame{Err: "truncated frame payload"}
+			}
 			return
 		}
 		f := Frame{Op: h.OpCode, Payload: payload}
@@ -153,6 +178,12 @@ func (cc *ClientConn) SendJSON(v interface{}) error {
 func (cc *ClientConn) SendRaw(b []byte) error {
 	cc.c.SetWriteDeadline(time.Now().Add(3 * time.Second))
 	return wsutil.WriteClientText(cc.c, b)
+}
+
+func (cc *ClientConn) locallyClosed() bool {
+	cc.mu.Lock()
+	defer cc.mu.Unlock()
+	return cc.closed
 }
 
 // Close drops the connection abruptly.
